@@ -52,6 +52,9 @@ def cases(tier, seed):
     # histories: the quiet run is not the first thing that happens to the device / mesh object
     for (m, dens, sm), prior in itertools.product(meshes[:3] if quick else meshes[:6], ("pinned_driven_solve", "driven_solver_alive", "quiet_twice", "screened_driven_solve")):
         out.append(dict(dev=m, dens=dens, smooth=sm, gamma=10.0, u=5.79, adaptive=True, dt_max=1e-2, screening=False, prior=prior))
+    # ... and the quiet run itself is a screening run (the induced potential must stay identically zero whatever ran before)
+    for (m, dens, sm), prior in itertools.product(meshes[:2] if quick else meshes[:6], ("screened_driven_solve", "quiet_twice")):
+        out.append(dict(dev=m, dens=dens, smooth=sm, gamma=10.0, u=5.79, adaptive=True, dt_max=1e-2, screening=True, prior=prior))
     # thermalisation first (two stages on one solver: the recorded stage must start and stay in the uniform state)
     for (m, dens, sm), ad in itertools.product(meshes[:3] if quick else meshes, (False, True)):
         out.append(dict(dev=m, dens=dens, smooth=sm, gamma=10.0, u=5.79, adaptive=ad, dt_max=1e-2, screening=False, thermal=True))
